@@ -243,6 +243,18 @@ func genC17Guards() {
 		bools: map[string]string{dbVar + " == newestDb": "isNewestDb", "newestDb == " + dbVar: "isNewestDb", "exceptNewest": "exceptNewest"}}
 	skip, _ := c17gExpr(fset, env2, skipIf.Cond)
 
+	// ---- SetCheckpoint stamps the time of the WRITE (Model/Checkpoint.lean cpEntries: `now`), never a time it was handed:
+	// every statement of its body that mentions MTimeKey, and every mention of `.Mtime` in it (none expected)
+	sc := c17gFunc(f, "SetCheckpoint")
+	var mt []string
+	for _, st := range sc.Body.List {
+		txt := c17Print(fset, st)
+		if strings.Contains(txt, "MTimeKey") || strings.Contains(txt, ".Mtime") || strings.Contains(txt, "mtime") {
+			mt = append(mt, txt)
+		}
+	}
+	facts["c17_setcheckpoint_mtime"] = mt
+
 	var sb strings.Builder
 	sb.WriteString(header)
 	sb.WriteString("namespace GunYu.Gen\n\n")
